@@ -547,4 +547,160 @@ theorem lexPrim_data (bs : List Nat) (hb : ∀ b ∈ bs, b < 256) {rest : List C
     (by have := b64Encode_length bs; omega)
   simp [lexPrim, show isIdentStart '%' = false by decide, lexBlob, h]
 
+
+/-! ## no panic -/
+
+theorem Res.map_ne_panic {α β : Type} (f : α → β) {r : Res α} (h : r ≠ .panic) : r.map f ≠ .panic := by
+  cases r <;> simp_all [Res.map]
+theorem unescFrom_ne_panic (st : EscSt) (s : List Char) : unescFrom st s ≠ .panic := by
+  fun_induction unescFrom st s <;> first
+    | (intro h; cases h)
+    | assumption
+    | (apply Res.map_ne_panic; assumption)
+theorem lexString_ne_panic (inp : List Char) : lexString inp ≠ .panic := by
+  unfold lexString
+  split
+  · split
+    · exact Res.map_ne_panic _ (unescFrom_ne_panic _ _)
+    · intro h; cases h
+  · intro h; cases h
+
+theorem lexPrim_ne_panic (inp : List Char) : lexPrim inp ≠ some .panic := by
+  unfold lexPrim
+  split
+  · simp
+  · split
+    · intro h; simp only [Option.some.injEq] at h; exact Res.map_ne_panic _ (lexString_ne_panic _) h
+    · split
+      · split <;> simp
+      · split
+        · split <;> simp
+        · split
+          · split <;> simp
+          · simp
+
+structure NP (f : Nat) : Prop where
+  e : ∀ i, pElem f i ≠ .panic
+  a : ∀ acc i, pAttrs f acc i ≠ .panic
+  aa : ∀ acc i, pAfterAttr f acc i ≠ .panic
+  it : ∀ k r i, pItems f k r i ≠ .panic
+  av : ∀ k v i, pAfterValue f k v i ≠ .panic
+  s : ∀ k v i, pSlot f k v i ≠ .panic
+  as : ∀ k a v i, pAfterSlot f k a v i ≠ .panic
+
+theorem np_all : ∀ f, NP f
+  | 0 => ⟨by intro i; simp [pElem], by intro a i; simp [pAttrs], by intro a i; simp [pAfterAttr],
+      by intro k r i; simp [pItems], by intro k v i; simp [pAfterValue], by intro k v i; simp [pSlot],
+      by intro k a v i; simp [pAfterSlot]⟩
+  | f + 1 => by
+    have ih := np_all f
+    have hl := lexPrim_ne_panic
+    have hs := lexString_ne_panic
+    refine ⟨?_, ?_, ?_, ?_, ?_, ?_, ?_⟩
+    · intro i; rw [pElem.eq_def]; simp only
+      split
+      · exact ih.a _ _
+      · have := ih.it .rb false ‹_›; split <;> simp_all
+      · split
+        · rename_i r h; intro hr; subst hr; exact hl _ h
+        · simp
+    · intro acc i; rw [pAttrs.eq_def]; simp only
+      repeat' split
+      all_goals first
+        | (intro h; cases h; done)
+        | exact ih.e _ | exact ih.a _ _ | exact ih.aa _ _ | exact ih.it _ _ _ | exact ih.av _ _ _ | exact ih.s _ _ _
+        | exact ih.as _ _ _ _
+        | (rename_i h; exact absurd h (ih.it _ _ _))
+        | (rename_i h; exact absurd h (ih.e _))
+        | (rename_i h _; exact absurd h (ih.it _ _ _))
+        | (rename_i h; exact absurd h (hl _))
+        | (rename_i h; exact absurd h (Res.map_ne_panic _ (hs _)))
+        | (rename_i h; split at h
+           · exact absurd h (Res.map_ne_panic _ (hs _))
+           · split at h <;> cases h)
+        | simp_all
+    · intro acc i; rw [pAfterAttr.eq_def]; simp only
+      repeat' split
+      all_goals first
+        | (intro h; cases h; done)
+        | exact ih.e _ | exact ih.a _ _ | exact ih.aa _ _ | exact ih.it _ _ _ | exact ih.av _ _ _ | exact ih.s _ _ _
+        | exact ih.as _ _ _ _
+        | (rename_i h; exact absurd h (ih.it _ _ _))
+        | (rename_i h; exact absurd h (ih.e _))
+        | (rename_i h _; exact absurd h (ih.it _ _ _))
+        | (rename_i h; exact absurd h (hl _))
+        | (rename_i h; exact absurd h (Res.map_ne_panic _ (hs _)))
+        | (rename_i h; split at h
+           · exact absurd h (Res.map_ne_panic _ (hs _))
+           · split at h <;> cases h)
+        | simp_all
+    · intro k r i; rw [pItems.eq_def]; simp only
+      repeat' split
+      all_goals first
+        | (intro h; cases h; done)
+        | exact ih.e _ | exact ih.a _ _ | exact ih.aa _ _ | exact ih.it _ _ _ | exact ih.av _ _ _ | exact ih.s _ _ _
+        | exact ih.as _ _ _ _
+        | (rename_i h; exact absurd h (ih.it _ _ _))
+        | (rename_i h; exact absurd h (ih.e _))
+        | (rename_i h _; exact absurd h (ih.it _ _ _))
+        | (rename_i h; exact absurd h (hl _))
+        | (rename_i h; exact absurd h (Res.map_ne_panic _ (hs _)))
+        | (rename_i h; split at h
+           · exact absurd h (Res.map_ne_panic _ (hs _))
+           · split at h <;> cases h)
+        | simp_all
+    · intro k v i; rw [pAfterValue.eq_def]; simp only
+      repeat' split
+      all_goals first
+        | (intro h; cases h; done)
+        | exact ih.e _ | exact ih.a _ _ | exact ih.aa _ _ | exact ih.it _ _ _ | exact ih.av _ _ _ | exact ih.s _ _ _
+        | exact ih.as _ _ _ _
+        | (rename_i h; exact absurd h (ih.it _ _ _))
+        | (rename_i h; exact absurd h (ih.e _))
+        | (rename_i h _; exact absurd h (ih.it _ _ _))
+        | (rename_i h; exact absurd h (hl _))
+        | (rename_i h; exact absurd h (Res.map_ne_panic _ (hs _)))
+        | (rename_i h; split at h
+           · exact absurd h (Res.map_ne_panic _ (hs _))
+           · split at h <;> cases h)
+        | simp_all
+    · intro k v i; rw [pSlot.eq_def]; simp only
+      repeat' split
+      all_goals first
+        | (intro h; cases h; done)
+        | exact ih.e _ | exact ih.a _ _ | exact ih.aa _ _ | exact ih.it _ _ _ | exact ih.av _ _ _ | exact ih.s _ _ _
+        | exact ih.as _ _ _ _
+        | (rename_i h; exact absurd h (ih.it _ _ _))
+        | (rename_i h; exact absurd h (ih.e _))
+        | (rename_i h _; exact absurd h (ih.it _ _ _))
+        | (rename_i h; exact absurd h (hl _))
+        | (rename_i h; exact absurd h (Res.map_ne_panic _ (hs _)))
+        | (rename_i h; split at h
+           · exact absurd h (Res.map_ne_panic _ (hs _))
+           · split at h <;> cases h)
+        | simp_all
+    · intro k a v i; rw [pAfterSlot.eq_def]; simp only
+      repeat' split
+      all_goals first
+        | (intro h; cases h; done)
+        | exact ih.e _ | exact ih.a _ _ | exact ih.aa _ _ | exact ih.it _ _ _ | exact ih.av _ _ _ | exact ih.s _ _ _
+        | exact ih.as _ _ _ _
+        | (rename_i h; exact absurd h (ih.it _ _ _))
+        | (rename_i h; exact absurd h (ih.e _))
+        | (rename_i h _; exact absurd h (ih.it _ _ _))
+        | (rename_i h; exact absurd h (hl _))
+        | (rename_i h; exact absurd h (Res.map_ne_panic _ (hs _)))
+        | (rename_i h; split at h
+           · exact absurd h (Res.map_ne_panic _ (hs _))
+           · split at h <;> cases h)
+        | simp_all
+
+theorem parseFuel_ne_panic (fuel : Nat) (inp : List Char) : parseFuel fuel inp ≠ .panic := by
+  unfold parseFuel
+  split
+  · intro h; cases h
+  · exact Res.map_ne_panic _ ((np_all fuel).e _)
+
+theorem parse_ne_panic (inp : List Char) : parse inp ≠ .panic := parseFuel_ne_panic _ inp
+
 end SwimVerif.Recon
